@@ -95,7 +95,8 @@ def tlc(ctx, module, cfg, workers=1, timeout=600, env=None, extra=(), heap='3g')
     d = spec_dir(ctx)
     _meta[0] += 1
     meta = ctx.path('meta-%d-%d' % (os.getpid(), _meta[0]))
-    cmd = ['java', '-Xmx' + heap, '-Xss64m', '-XX:+UseParallelGC', '-cp', TLA_CP, 'tlc2.TLC',
+    # java.io.tmpdir: TLC creates a scratch directory per run; keep it inside this check's scratch directory
+    cmd = ['java', '-Xmx' + heap, '-Xss64m', '-XX:+UseParallelGC', '-Djava.io.tmpdir=' + ctx.scratch, '-cp', TLA_CP, 'tlc2.TLC',
            '-workers', str(workers), '-metadir', meta, '-config', cfg] + list(extra) + [module]
     e = dict(os.environ)
     if env:
